@@ -2,6 +2,7 @@
 """Confirm a seeded breaking change and record it under /verif/seeded/<id>/.
 
 Usage: seed_ingest.py <seed-id> <property> <dir-with-patch.diff-and-demo> [--needs TEXT]
+       seed_ingest.py --recheck [seed-id ...]     (recompute caught_by of confirmed seeds with the current checks)
 
 Steps (all in a fresh scratch worktree of /repo, removed afterwards):
   1. demo on the clean tree must pass (exit 0)
@@ -40,8 +41,56 @@ def run_demo(wt, demo_rel, src_dir):
     return sh(cmd, cwd=wt, env=env, timeout=900)
 
 
+def _one_check(a):
+    pid, wt = a
+    rc, out = sh(f"/venv/bin/python {ROOT}/check.py {pid} --repo {wt} --no-evidence", cwd=ROOT)
+    lines = [l.strip() for l in out.splitlines() if ": R-C" in l and not l.startswith("[") and not l.startswith("KNOWN-FINDING")]
+    return pid, rc, lines[:6] or [l for l in out.splitlines() if "ANALYSIS-ERROR" in l][:2]
+
+
+def run_checks(wt):
+    """Quick tier of every claimed check against the tree in ``wt``; returns {property: {exit, reports}} for those that fired."""
+    import concurrent.futures
+
+    manifest = json.loads((ROOT / "MANIFEST.json").read_text())
+    pids = [chk["property_id"] for chk in manifest["checks"]]
+    fired = {}
+    with concurrent.futures.ThreadPoolExecutor(max_workers=8) as ex:
+        for pid, rc, reports in ex.map(_one_check, [(p, wt) for p in pids]):
+            if rc != 0:
+                fired[pid] = dict(exit=rc, reports=reports)
+    return fired
+
+
+def recheck(seed_id):
+    """Recompute `caught_by` of an already confirmed seed against the current checks (scratch worktree of /repo HEAD)."""
+    dst = ROOT / "seeded" / seed_id
+    meta = json.loads((dst / "meta.json").read_text())
+    tmp = tempfile.mkdtemp(prefix=f"seed_{seed_id}_")
+    wt = pathlib.Path(tmp) / "wt"
+    try:
+        rc, out = sh(f"git -C /repo worktree add --detach {wt} HEAD -q")
+        assert rc == 0, out
+        rc, out = sh(f"git -C {wt} apply {dst / 'patch.diff'}")
+        if rc != 0:
+            print(f"{seed_id}: patch no longer applies to /repo HEAD: {out[-200:]}")
+            return 1
+        fired = run_checks(wt)
+    finally:
+        sh(f"git -C /repo worktree remove --force {wt}")
+        shutil.rmtree(tmp, ignore_errors=True)
+    meta["caught_by"] = fired
+    meta["detected"] = bool(fired)
+    (dst / "meta.json").write_text(json.dumps(meta, indent=1) + "\n")
+    print(seed_id, "caught by", sorted(fired))
+    return 0
+
+
 def main():
     args = sys.argv[1:]
+    if args and args[0] == "--recheck":
+        ids = args[1:] or sorted(p.name for p in (ROOT / "seeded").iterdir() if (p / "meta.json").exists())
+        return max([recheck(i) for i in ids] or [0])
     needs = ""
     if "--needs" in args:
         i = args.index("--needs")
@@ -80,16 +129,7 @@ def main():
         rc_pat, out_pat = run_demo(wt, demo.name, src)
         log["demo_patched_rc"] = rc_pat
         log["demo_patched_tail"] = out_pat.strip().splitlines()[-6:]
-        # run the checks
-        manifest = json.loads((ROOT / "MANIFEST.json").read_text())
-        fired = {}
-        for chk in manifest["checks"]:
-            pid = chk["property_id"]
-            rc, out = sh(f"/venv/bin/python {ROOT}/check.py {pid} --repo {wt} --no-evidence", cwd=ROOT)
-            lines = [l.strip() for l in out.splitlines() if ": R-C" in l and not l.startswith("[") and not l.startswith("KNOWN-FINDING")]
-            if rc != 0:
-                fired[pid] = dict(exit=rc, reports=lines[:6] or [l for l in out.splitlines() if "ANALYSIS-ERROR" in l][:2])
-        log["checks_fired"] = fired
+        log["checks_fired"] = run_checks(wt)
     finally:
         sh(f"git -C /repo worktree remove --force {wt}")
         shutil.rmtree(tmp, ignore_errors=True)
